@@ -158,7 +158,7 @@ def run(F, chk):
                         for l2 in guards.slice_of_operand(b, t["args"][1])["locals"]:
                             for d in b.defs().get(l2, []):
                                 if d[2] == "assign" and d[3]["k"] == "use" and "promoted" in d[3]["a"]:
-                                    val = F.promoted_value(b, d[3]["a"]["promoted"])
+                                    val = F.promoted_value(d[3]["a"].get("pof", b.path), d[3]["a"]["promoted"])
                         if val != ("variant", "sozu_lib::protocol::udp::flow::FlowPhase", "AwaitingBackend"):
                             return False
                         is_ne = t.get("fn").endswith("::ne")
